@@ -7,7 +7,12 @@ use std::sync::Once;
 /// xorshift64* seeded through splitmix64 so that (seed, stream) pairs give
 /// unrelated sequences.
 #[derive(Clone)]
-pub struct Rng(u64);
+pub struct Rng {
+    s: u64,
+    /// Byte-driven mode (coverage-guided stage): decisions are read from these bytes, two per
+    /// draw, until they run out; then the generator continues pseudo-randomly.
+    tape: Option<(std::rc::Rc<Vec<u8>>, usize)>,
+}
 
 pub fn splitmix(mut z: u64) -> u64 {
     z = z.wrapping_add(0x9e3779b97f4a7c15);
@@ -16,17 +21,35 @@ pub fn splitmix(mut z: u64) -> u64 {
     z ^ (z >> 31)
 }
 
+thread_local! {
+    static TAPE: RefCell<Option<Vec<u8>>> = const { RefCell::new(None) };
+}
+
+/// The next `Rng::new` on this thread reads its decisions from `bytes` (see `Rng::tape`).
+pub fn set_decision_tape(bytes: &[u8]) {
+    TAPE.with(|t| *t.borrow_mut() = Some(bytes.to_vec()));
+}
+
 impl Rng {
     pub fn new(seed: u64, stream: u64) -> Self {
         let s = splitmix(splitmix(seed) ^ splitmix(stream.wrapping_mul(0xd1342543de82ef95).wrapping_add(1)));
-        Rng(if s == 0 { 0x1234_5678_9abc_def1 } else { s })
+        let tape = TAPE.with(|t| t.borrow_mut().take()).map(|v| (std::rc::Rc::new(v), 0));
+        Rng { s: if s == 0 { 0x1234_5678_9abc_def1 } else { s }, tape }
     }
     pub fn next(&mut self) -> u64 {
-        let mut x = self.0;
+        if let Some((t, pos)) = &mut self.tape {
+            if *pos + 2 <= t.len() {
+                let v = u16::from_le_bytes([t[*pos], t[*pos + 1]]) as u64;
+                *pos += 2;
+                // the same 16 bits in every lane: whichever bits a caller looks at carry the decision
+                return v * 0x0001_0001_0001_0001;
+            }
+        }
+        let mut x = self.s;
         x ^= x >> 12;
         x ^= x << 25;
         x ^= x >> 27;
-        self.0 = x;
+        self.s = x;
         x.wrapping_mul(0x2545F4914F6CDD1D)
     }
     /// Uniform in 0..n (n > 0).
